@@ -2446,11 +2446,368 @@ def d7_hidden_state(ck):
                                    qual, ', '.join('%s.%s' % (me, r) for r in reads), cls, u(a.test)[:80]))
 
 
+# ---------------------------------------------------------------------------
+# D8: no way out by `raise` for an input inside the quantifier (fifth wave)
+#
+# The property is stated for ALL integral lags >= 1 (Python or numpy integer), every two-dimensional /
+# ragged collection of trajectories, both window modes, requested or inferred number of states.
+# Necessary: the condition under which assigns_to_counts / the helper leaves by `raise` is false for
+# every such input.  The condition of a raise is the conjunction of the branch conditions that dominate
+# it (the negations of earlier guard clauses included); each condition is evaluated in a three-valued
+# calculus over the admitted inputs: (sat, valid) = (true for SOME admitted input, true for ALL), each
+# True / False / None (not decided), plus the set of input facets it speaks about (two satisfiable
+# conditions on different facets are jointly satisfiable: the admitted inputs are a product).
+
+_T_ALL_INTEGRAL = ('numbers.Integral', 'numbers.Rational', 'numbers.Real', 'numbers.Complex', 'numbers.Number',
+                   'Integral', 'Number')
+_T_SOME_INTEGRAL = ('int', 'np.integer', 'np.signedinteger', 'np.int64', 'np.int32', 'np.int_', 'np.intp',
+                    'numpy.integer')
+_T_NOT_INTEGRAL = ('float', 'str', 'bytes', 'complex', 'np.floating', 'np.float64', 'np.float32', 'list', 'tuple',
+                   'dict', 'np.ndarray', 'numpy.floating')
+
+_UNKNOWN = (None, None, frozenset(['?']))
+
+
+def _k_not(a):
+    return None if a is None else (not a)
+
+
+def _k_and(a, b):
+    if a is False or b is False:
+        return False
+    if a is True and b is True:
+        return True
+    return None
+
+
+def _adm_not(p):
+    return (_k_not(p[1]), _k_not(p[0]), p[2])
+
+
+def _adm_and(p, q):
+    valid = _k_and(p[1], q[1])
+    if p[0] is False or q[0] is False:
+        sat = False
+    elif p[1] is True:
+        sat = q[0]
+    elif q[1] is True:
+        sat = p[0]
+    elif p[0] is True and q[0] is True and not (p[2] & q[2]):
+        sat = True
+    else:
+        sat = None
+    return (sat, valid, p[2] | q[2])
+
+
+def _adm_or(p, q):
+    return _adm_not(_adm_and(_adm_not(p), _adm_not(q)))
+
+
+def _lin_truth(c0, c1, rel):
+    """(sat, valid) of `c0 + c1*L  rel  0` over the integers L >= 1.  An
+    ordering of a linear form is true on a ray, so on [1, oo) it is decided by
+    its values at L = 1 and for large L."""
+    def t(v, r):
+        return {'<': v < 0, '<=': v <= 0, '>': v > 0, '>=': v >= 0}[r]
+    if rel in ('<', '<=', '>', '>='):
+        t1 = t(c0 + c1, rel)
+        tinf = t1 if c1 == 0 else t(c1, rel)
+        return (t1 or tinf, t1 and tinf)
+    if rel in ('==', '!='):
+        if c1 == 0:
+            eq = (c0 == 0, c0 == 0)
+        else:
+            eq = ((-c0) % c1 == 0 and (-c0) // c1 >= 1, False)
+        return eq if rel == '==' else (not eq[1], not eq[0])
+    return (None, None)
+
+
+class _Admitted:
+    """Truth of a branch condition of `fn` over the admitted inputs.
+    arr/lag/nst/sw: the parameters in their roles (nst may be None), dims:
+    the number of dimensions every admitted trajectory argument has."""
+
+    def __init__(self, fi, arr, lag, nst, sw, dims):
+        self.fi, self.arr, self.lag, self.nst, self.sw, self.dims = fi, arr, lag, nst, sw, dims
+        self.norms = _int_normalisations(fi, lag)
+
+    def _raw_at(self, stmt, name, also=()):
+        try:
+            ds = self.fi.rd.defs_at(stmt, name)
+        except Exception:
+            return False
+        return bool(ds) and all(d == 'PARAM' or any(d is x for x in also) for d in ds)
+
+    def _x(self, e):
+        """expanded + canonical, int(lag) read as lag (identity on the
+        admitted, integral, values)."""
+        lag = self.lag
+
+        class _T(ast.NodeTransformer):
+            def visit_Call(self, n):
+                self.generic_visit(n)
+                if call_name(n) in _INT_CASTS and len(n.args) == 1 and not n.keywords and \
+                        isinstance(n.args[0], ast.Name) and n.args[0].id == lag:
+                    return n.args[0]
+                return n
+        try:
+            return canon(_T().visit(self.fi.expand(e)))
+        except Exception:
+            return e
+
+    def _is_dims(self, e):
+        """len(A.shape) / A.ndim / np.ndim(A) of the trajectory parameter."""
+        def is_arr(x):
+            return isinstance(x, ast.Name) and x.id == self.arr
+        if isinstance(e, ast.Attribute) and e.attr == 'ndim' and is_arr(e.value):
+            return True
+        if isinstance(e, ast.Call) and not e.keywords and len(e.args) == 1:
+            a = e.args[0]
+            if call_name(e) == 'len' and isinstance(a, ast.Attribute) and a.attr == 'shape' and is_arr(a.value):
+                return True
+            if call_name(e) in ('np.ndim', 'numpy.ndim') and is_arr(a):
+                return True
+        return False
+
+    def _mentions(self, e, name):
+        return any(isinstance(x, ast.Name) and x.id == name for x in walk_expr(e))
+
+    def compare(self, lhs, rel, rhs, stmt):
+        lx, rx = self._x(lhs), self._x(rhs)
+        # number of dimensions of the trajectory argument against a literal
+        for a, b, r in ((lx, rx, rel), (rx, lx, {'<': '>', '<=': '>=', '>': '<', '>=': '<='}.get(rel, rel))):
+            k = const_value(b)
+            if self._is_dims(a) and type(k) is int and r in ('<', '<=', '>', '>=', '==', '!='):
+                if not self._raw_at(stmt, self.arr):
+                    return _UNKNOWN
+                v = {'<': self.dims < k, '<=': self.dims <= k, '>': self.dims > k, '>=': self.dims >= k,
+                     '==': self.dims == k, '!=': self.dims != k}[r]
+                return (v, v, frozenset(['dims']))
+        # requested number of states present / absent
+        if self.nst is not None and rel in ('is', 'is not', '==', '!='):
+            for a, b in ((lx, rx), (rx, lx)):
+                if isinstance(a, ast.Name) and a.id == self.nst and isinstance(b, ast.Constant) and b.value is None \
+                        and self._raw_at(stmt, self.nst):
+                    return (True, False, frozenset(['nst']))
+        # the lag against a literal
+        if rel in ('<', '<=', '>', '>=', '==', '!=') and (self._mentions(lx, self.lag) or self._mentions(rx, self.lag)):
+            a, b = _lin(lx, self.lag), _lin(rx, self.lag)
+            if a is not None and b is not None and self._raw_at(stmt, self.lag, self.norms):
+                s, v = _lin_truth(a[0] - b[0], a[1] - b[1], rel)
+                return (s, v, frozenset(['lag']))
+        return _UNKNOWN
+
+    def truth(self, e, stmt):
+        if isinstance(e, ast.UnaryOp) and isinstance(e.op, ast.Not):
+            return _adm_not(self.truth(e.operand, stmt))
+        if isinstance(e, ast.BoolOp):
+            vs = [self.truth(v, stmt) for v in e.values]
+            out = vs[0]
+            for v in vs[1:]:
+                out = _adm_and(out, v) if isinstance(e.op, ast.And) else _adm_or(out, v)
+            return out
+        if isinstance(e, ast.Compare):
+            out, left = None, e.left
+            for op, right in zip(e.ops, e.comparators):
+                rel = {ast.Lt: '<', ast.LtE: '<=', ast.Gt: '>', ast.GtE: '>=', ast.Eq: '==', ast.NotEq: '!=',
+                       ast.Is: 'is', ast.IsNot: 'is not'}.get(type(op))
+                v = self.compare(left, rel, right, stmt) if rel else _UNKNOWN
+                out = v if out is None else _adm_and(out, v)
+                left = right
+            return out
+        if isinstance(e, ast.Call) and call_name(e) == 'isinstance' and len(e.args) == 2 and not e.keywords:
+            x, t = e.args
+            if isinstance(x, ast.Name) and x.id == self.lag and self._raw_at(stmt, self.lag, self.norms):
+                ts = [u(y) for y in (t.elts if isinstance(t, (ast.Tuple, ast.List)) else [t])]
+                if any(y in _T_ALL_INTEGRAL for y in ts) or ({'int'} & set(ts) and {'np.integer', 'numpy.integer'} & set(ts)):
+                    return (True, True, frozenset(['lagtype']))
+                if any(y in _T_SOME_INTEGRAL for y in ts):
+                    return (True, None, frozenset(['lagtype']))
+                if all(y in _T_NOT_INTEGRAL for y in ts):
+                    return (False, False, frozenset(['lagtype']))
+            return _UNKNOWN
+        if isinstance(e, ast.Name) and e.id == self.sw and self._raw_at(stmt, self.sw):
+            return (True, False, frozenset(['sw']))
+        if isinstance(e, ast.Name):
+            v = self.fi.temp_value(e)
+            if v is not None:
+                return self.truth(v, self.fi.stmt(v) or stmt)
+        if isinstance(e, ast.Constant) and isinstance(e.value, bool):
+            return (e.value, e.value, frozenset())
+        return _UNKNOWN
+
+    def path(self, stmt):
+        """Condition under which `stmt` executes, as far as the dominating
+        branch conditions say."""
+        out = (True, True, frozenset())
+        for a in _assumes(self.fi, stmt):
+            owner = a.owner if isinstance(getattr(a, 'owner', None), ast.stmt) else stmt
+            v = self.truth(a.test, owner)
+            out = _adm_and(out, v if a.polarity else _adm_not(v))
+        return out
+
+
+def d8_raises(ck):
+    rule = 'C03.D8.raises'
+    mod = ck.repo.mod(TM)
+    n = 0
+    for name, roles in ((COUNTS, (0, 1, 2, 3, 2)), (HELPER, (0, 1, None, 2, 1))):
+        fn = mod.func(name)
+        ps = params(fn)
+        if len(ps) <= max(r for r in roles[:4] if r is not None):
+            continue                    # signature reported by the other rules
+        fi = finfo(mod, fn)
+        adm = _Admitted(fi, ps[roles[0]], ps[roles[1]], ps[roles[2]] if roles[2] is not None else None, ps[roles[3]], roles[4])
+        from ..core import walk_local
+        for r in walk_local(fn):
+            is_assert = isinstance(r, ast.Assert)
+            if not isinstance(r, (ast.Raise, ast.Assert)):
+                continue
+            # structured position: nested in plain if-statements only (then the dominating conditions ARE the condition)
+            plain, handler = True, False
+            p = mod.parent.get(r)
+            while p is not None and p is not fn:
+                if isinstance(p, ast.ExceptHandler):
+                    handler = True
+                if not isinstance(p, ast.If):
+                    plain = False
+                p = mod.parent.get(p)
+            if handler:
+                continue                # converts an error raised by the guarded statements: no new way out
+            try:
+                cond = adm.path(r)
+                if is_assert:
+                    cond = _adm_and(cond, _adm_not(adm.truth(r.test, r)))
+            except Exception as e:          # an unforeseen shape is not decided
+                cond = _UNKNOWN
+            n += 1
+            text = ' and '.join(('' if a.polarity else 'not ') + '(%s)' % u(a.test)[:50] for a in sorted(_assumes(fi, r), key=lambda a: (a.lineno, not a.polarity))) or 'always'
+            if is_assert:
+                text = ('%s and not (%s)' % (text, u(r.test)[:50])) if text != 'always' else 'not (%s)' % u(r.test)[:60]
+            construct = '%s when %s' % ('assert fails' if is_assert else 'raise', text[:160])
+            if cond[0] is False:
+                ck.ok(rule, mod, r, construct, 'the condition is false for every integral lag >= 1 / %d-dimensional trajectory argument' % roles[4])
+            elif cond[0] is True and plain:
+                ck.bad(rule, mod, r, name, construct,
+                       '%s leaves by an exception at %s under a condition that holds for inputs the property quantifies over '
+                       '(integral lag >= 1 of Python or numpy integer type, %d-dimensional / ragged trajectory argument, either '
+                       'window mode, requested or inferred number of states): for those inputs no count matrix is returned at all. '
+                       'Only lags that are not integers or < 1 and trajectory arguments of the wrong dimensionality may be rejected'
+                       % (name, mod.loc(r), roles[4]))
+            elif is_assert:
+                continue                # an extra assertion the rule cannot read does not matter
+            else:
+                ck.missing(rule, 'condition under which %s raises at %s is not decided over the admitted inputs: %s' % (
+                    name, mod.loc(r), text[:120]))
+    return n
+
+
+# ---------------------------------------------------------------------------
+# D9: the counts a fitting method hands on are the counts as counted, unless trimming was requested
+
+def _truthy_setting(cj, fi, me):
+    """(attribute, truth) when the conjunct says that the setting `me.X` is
+    true / false: `me.X`, `not me.X`, `me.X is True`, `me.X == False` ..."""
+    def attr(e):
+        e = fi.expand(e) if isinstance(e, ast.Name) else e
+        if isinstance(e, ast.Attribute) and isinstance(e.value, ast.Name) and e.value.id == me:
+            return e.attr
+        return None
+    if isinstance(cj, tuple) and cj[0] == 'expr':
+        a = attr(cj[1])
+        return (a, cj[2]) if a else None
+    if isinstance(cj, Cmp) and cj.rel in ('is', '==', 'is not', '!='):
+        for x, y in ((cj.lhs, cj.rhs), (cj.rhs, cj.lhs)):
+            a = attr(x)
+            if a and isinstance(y, ast.Constant) and isinstance(y.value, bool):
+                same = cj.rel in ('is', '==')
+                return (a, y.value if same else not y.value)
+    return None
+
+
+def d9_trim_gate(ck):
+    """`MSM(...).fit(a).tcounts_` is the count matrix of `a` ("square with
+    the requested (or observed) number of states").  Ergodic trimming removes
+    states (or zeroes their rows), so a method that counts may apply it to the
+    counts only when the constructor setting that requests it is true - by
+    default it is off.  Necessary: every call of trim_disconnected on a value
+    derived from assigns_to_counts is dominated by a branch condition that says
+    `self.<setting>` is TRUE, where <setting> is an attribute __init__ stores
+    from a constructor parameter."""
+    rule = 'C03.D9.trim-gate'
+    try:
+        mod = ck.repo.mod(MSM_PY)
+    except Exception:
+        return
+    from ..core import param_default
+    for qual, fn in sorted(mod.functions.items()):
+        if not [c for c in calls_in(fn) if (call_name(c) or '').split('.')[-1] == COUNTS]:
+            continue
+        ps = params(fn)
+        decos = {u(d).split('.')[-1] for d in fn.decorator_list}
+        if '.' not in qual or not ps or decos & {'staticmethod', 'classmethod'}:
+            continue
+        me, cls = ps[0], qual.rsplit('.', 1)[0]
+        fi = finfo(mod, fn)
+        # constructor settings: attribute -> default of the parameter it is stored from
+        settings = {}
+        init = mod.functions.get(cls + '.__init__')
+        if init is not None and params(init):
+            for _s, a, v in _self_attr_stores(init, params(init)[0]):
+                if isinstance(v, ast.Name) and v.id in params(init):
+                    settings[a] = param_default(init, v.id)
+        for c in calls_in(fn):
+            if (call_name(c) or '').split('.')[-1] != 'trim_disconnected' or not c.args:
+                continue
+            if not any(x.split('.')[-1] == COUNTS for x in fi.derives_from(c.args[0])[1]):
+                continue
+            ck.analysed(mod, fn)
+            st = fi.stmt(c)
+            facts, unread = [], []
+            for a in _assumes(fi, st):
+                cs = conjuncts(a.test, a.polarity)
+                if cs is None:
+                    unread.append(a)
+                    continue
+                for cj in cs:
+                    t = _truthy_setting(cj, fi, me)
+                    if t is not None and t[0] in settings:
+                        facts.append((t[0], t[1], a))
+                    else:
+                        unread.append(a)
+            construct = '%s: %s applied to the counts' % (qual, u(c)[:80])
+            on = [f for f in facts if f[1] is True]
+            off = [f for f in facts if f[1] is False]
+            if on and not off:
+                ck.ok(rule, mod, c, construct, 'only when %s.%s is true (trimming requested)' % (me, on[0][0]))
+            elif off and not on:
+                d = settings.get(off[0][0])
+                ck.bad(rule, mod, off[0][2].owner, qual, construct,
+                       'the count matrix of %s is passed through trim_disconnected exactly when the setting %s.%s is FALSE%s: '
+                       'a model fitted without trimming then stores counts from which every state outside the largest connected '
+                       'set - and all pairs between such states - has been removed (tcounts_ is smaller than the requested / '
+                       'observed number of states and its total is less than the sum of max(0, length - lag)), and a model that '
+                       'asked for trimming is not trimmed' % (COUNTS, me, off[0][0],
+                                                             (' (its default: %s)' % u(d)) if d is not None else ''))
+            elif not facts and not unread:
+                ck.bad(rule, mod, c, qual, construct,
+                       'the count matrix of %s is trimmed unconditionally: with the default settings tcounts_ must be the counts '
+                       'as counted (all requested / observed states, every lagged pair)' % COUNTS)
+            else:
+                ck.missing(rule, '%s: condition under which the counts are trimmed is not read as a constructor setting: %s' % (
+                    qual, ' ; '.join(u(a.test)[:60] for a in unread)[:160]))
+
+
 def check(ck):
     n = d1_slices(ck)
     ck.floor('C03.D1.slices', n or 0, 2, '(sliding / strided, return) pairs examined in %s' % HELPER)
     d_counts(ck)
     d5_settings(ck)
+    for rule, f in (('C03.D8.raises', d8_raises), ('C03.D9.trim-gate', d9_trim_gate)):
+        try:
+            f(ck)
+        except (AttributeError, KeyError, IndexError, TypeError, ValueError, RecursionError) as e:
+            ck.missing(rule, 'construct outside the shapes the rule models (%r)' % (e,))
     try:
         d7_hidden_state(ck)
     except (AttributeError, KeyError, IndexError, TypeError, ValueError, RecursionError) as e:
